@@ -82,8 +82,16 @@ func c20Run(m *mon.M, spec []byte, pass []byte, keyLen int, r *rand.Rand, tag st
 	} else {
 		m.Count("parse_consumed_other_length", 1)
 	}
-	out := make([]byte, keyLen)
-	f(out, pass)
+	gpass, gout := guard(pass), guard(make([]byte, keyLen))
+	out := gout.b()
+	f(out, gpass.b())
+	checkInputs(m, "s2k-function", wit, map[string]*guarded{"passphrase": gpass})
+	m.Count("output_overrun_checks", 1)
+	if !gout.spareIntact() {
+		m.Violation("output-buffer-overrun:"+mname, wit)
+	}
+	c20Ret.verify("s2k function " + mname)
+	c20Recheck(m, mname)
 	want := sp.Derive(H.h, pass, keyLen)
 	m.Count("ref_comparisons", 1)
 	m.Count("mode:"+mname, 1)
@@ -111,6 +119,14 @@ func c20Run(m *mon.M, spec []byte, pass []byte, keyLen int, r *rand.Rand, tag st
 		}
 		m.Violation("wrong-key:"+mname+":"+ctx+short, wit)
 		return
+	}
+	c20Ret.add("s2k-output:"+mname, out, map[string]any{"spec": wit["spec"], "keyLen": keyLen})
+	if mode != 3 || count <= 1<<16 {
+		// keep the returned function: it must still compute the same key after later Parse calls
+		c20Funcs = append(c20Funcs, c20Func{f: f, pass: append([]byte{}, pass...), want: append([]byte{}, want...), mname: mname, spec: mon.FullHex(spec)})
+		if len(c20Funcs) > 8 {
+			c20Funcs = c20Funcs[1:]
+		}
 	}
 	// the function must be reusable: second call, other passphrase and length
 	if r.IntN(4) == 0 {
@@ -143,6 +159,39 @@ func c20Run(m *mon.M, spec []byte, pass []byte, keyLen int, r *rand.Rand, tag st
 	}
 }
 
+// retention monitors of the process: outputs written by earlier calls, and
+// functions returned by earlier Parse calls.
+var c20Ret *retMon
+
+type c20Func struct {
+	f     func(out, in []byte)
+	pass  []byte
+	want  []byte
+	mname string
+	spec  string
+}
+
+var (
+	c20Funcs  []c20Func
+	c20Rotate int
+)
+
+// c20Recheck re-invokes one retained function (rotating): a function returned
+// by an earlier Parse must not be affected by later Parse calls.
+func c20Recheck(m *mon.M, after string) {
+	if len(c20Funcs) == 0 {
+		return
+	}
+	c20Rotate++
+	e := c20Funcs[c20Rotate%len(c20Funcs)]
+	out := make([]byte, len(e.want))
+	e.f(out, e.pass)
+	m.Count("retained_function_reinvocations", 1)
+	if !bytes.Equal(out, e.want) {
+		m.Violation("returned-function-changed-after-later-parse:"+e.mname, map[string]any{"spec": e.spec, "passphrase": mon.FullHex(e.pass), "want": mon.Hex(e.want), "got": mon.Hex(out), "after": after})
+	}
+}
+
 func c20Pass(r *rand.Rand) []byte {
 	switch r.IntN(8) {
 	case 0:
@@ -158,12 +207,14 @@ func c20Pass(r *rand.Rand) []byte {
 func TestC20(t *testing.T) {
 	m := mon.New(t, "C20")
 	defer m.Done()
-	m.Rule("streams: (simple-salted) modes 0/1 × 7 hash ids × key sizes {1,16,20,21,32,33,64,65,128,129} as a forced grid, then random 1..64, passphrases 0..100 weighted to hash-padding edges; (iterated) every coded count byte (quick: all 176 bytes with count ≤ 2 MiB for each hash plus 9 larger ones up to 0xff = 65 011 712 octets; thorough: all 256 × 7 hashes, ×3 below 4 MiB), key sizes from the set (one context above 1 MiB except 1 in 8), passphrases 0..100; (short-count) coded counts 0..20 with passphrases of count−8+{−2..2} and up to 3×count octets, where the RFC requires the whole salt‖passphrase to be hashed once; (serialize) s2k.Serialize under nil and explicit Configs → Parse → same key as Serialize wrote and as the ref derives from the emitted specifier; (unsupported) all 249 hash ids outside RFC 4880 §9.4's {1,2,3,8,9,10,11} × modes {0,1,3} must make Parse fail. Every valid case: s2k.Parse(spec‖random trailing bytes) then f(out, passphrase) compared with an RFC 4880 §3.7.1 executable spec (explicit message construction, one-shot hashes) and libgcrypt gcry_kdf_derive; 1 in 4 cases call f a second time with other arguments. distinct key = (stream, mode, hash, number of contexts, count exponent, count<len flag, passphrase length class); non-trivial = a key comparison was made or an expected error observed")
+	m.Rule("streams: (simple-salted) modes 0/1 × 7 hash ids × key sizes {1,16,20,21,32,33,64,65,128,129} as a forced grid, then random 1..64, passphrases 0..100 weighted to hash-padding edges; (iterated) every coded count byte (quick: all 176 bytes with count ≤ 2 MiB for each hash plus 9 larger ones up to 0xff = 65 011 712 octets; thorough: all 256 × 7 hashes, ×3 below 4 MiB), key sizes from the set (one context above 1 MiB except 1 in 8), passphrases 0..100; (short-count) coded counts 0..20 with passphrases of count−8+{−2..2} and up to 3×count octets, where the RFC requires the whole salt‖passphrase to be hashed once; (serialize) s2k.Serialize under nil and explicit Configs → Parse → same key as Serialize wrote and as the ref derives from the emitted specifier; (unsupported) all 249 hash ids outside RFC 4880 §9.4's {1,2,3,8,9,10,11} × modes {0,1,3} must make Parse fail. Every valid case: s2k.Parse(spec‖random trailing bytes) then f(out, passphrase) compared with an RFC 4880 §3.7.1 executable spec (explicit message construction, one-shot hashes) and libgcrypt gcry_kdf_derive; 1 in 4 cases call f a second time with other arguments. distinct key = (stream, mode, hash, number of contexts, count exponent, count<len flag, passphrase length class); non-trivial = a key comparison was made or an expected error observed. Cross-cutting monitors: the last 8 output buffers are re-verified after every later call, one of the last 8 returned functions (cheap ones) is re-invoked after every later Parse and must give its old key, passphrases carry sentinel spare capacity and must be unchanged, the capacity behind the output buffer must be untouched")
 	m.Assume("ref/s2kref is validated by hashlib-computed vectors and a libgcrypt grid in its unit test; it uses the Go standard library MD5/SHA-1/SHA-2 one-shot functions (trusted primitives; s2k uses the same through crypto.Hash) and ref/md4rmd's RIPEMD-160 (independent of x/crypto/ripemd160); libgcrypt 1.10 (GnuPG's S2K) is the fully independent witness and refuses empty passphrases")
 	m.Assume("specifier types other than 0, 1, 3 and truncated specifiers are outside the statement: observed (counters) but not judged")
 
 	nh := len(c20Hashes)
 	nk := len(c20KeySizes)
+	c20Ret = newRetMon(m, 8)
+	c20Funcs = nil
 
 	// ---------- simple and salted ----------
 	m.Cases("simple-salted", m.N(2100, 42000), func(i int64, r *rand.Rand) {
@@ -324,9 +375,16 @@ func TestC20(t *testing.T) {
 		pass := c20Pass(r)
 		saltSrc := mon.Bytes(r, 8)
 		var w bytes.Buffer
-		key := make([]byte, kl)
-		err := s2k.Serialize(&w, key, bytes.NewReader(saltSrc), pass, cfg)
+		gkey, gpass := guard(make([]byte, kl)), guard(pass)
+		key := gkey.b()
+		err := s2k.Serialize(&w, key, bytes.NewReader(saltSrc), gpass.b(), cfg)
 		m.Eval()
+		checkInputs(m, "Serialize", map[string]any{"keyLen": kl}, map[string]*guarded{"passphrase": gpass})
+		m.Count("output_overrun_checks", 1)
+		if !gkey.spareIntact() {
+			m.Violation("output-buffer-overrun:serialize", map[string]any{"keyLen": kl})
+		}
+		c20Ret.verify("Serialize")
 		wit := map[string]any{"class": cls, "hash": H.name, "S2KCount": wantCount, "keyLen": kl, "passphrase": mon.FullHex(pass), "rand": mon.FullHex(saltSrc), "spec": mon.FullHex(w.Bytes())}
 		if err != nil {
 			wit["err"] = err.Error()
@@ -437,6 +495,11 @@ func TestC20(t *testing.T) {
 		}
 	})
 
+	c20Ret.verify("end of run")
+	m.Gate("retention_reverifications", m.N(10000, 200000), "outputs of earlier calls re-verified after later calls (ring of 8)")
+	m.Gate("retained_function_reinvocations", m.N(2000, 30000), "functions returned by earlier Parse calls re-invoked after later Parse calls")
+	m.Gate("input_immutability_checks", m.N(3000, 50000), "passphrase (with sentinel-filled spare capacity) unchanged after the call")
+	m.Gate("output_overrun_checks", m.N(3000, 50000), "capacity behind the output buffer untouched")
 	for _, H := range c20Hashes {
 		m.Gate("multi_context:"+H.name, 6, "keyLen > hash size: extra contexts preloaded with zero octets ("+H.name+")")
 	}
